@@ -83,6 +83,8 @@ pub struct Knobs {
     pub udp_reorder_pm: u32,
     pub udp_reorder_max_ns: u64,
     pub udp_fault_ports: Vec<u16>,
+    /// partition of the datagram link: every datagram to or from `udp_fault_ports` sent in [from, until) simulated ns is lost
+    pub udp_partition_ns: (u64, u64),
 }
 
 impl Default for Knobs {
@@ -99,6 +101,7 @@ impl Default for Knobs {
             udp_reorder_pm: 0,
             udp_reorder_max_ns: 0,
             udp_fault_ports: Vec::new(),
+            udp_partition_ns: (0, 0),
         }
     }
 }
@@ -252,6 +255,7 @@ pub struct Stats {
     pub udp_reordered: u64,
     pub udp_no_socket: u64,
     pub udp_oversize: u64,
+    pub udp_partitioned: u64,
     pub faults_fired: BTreeMap<&'static str, u64>,
 }
 
